@@ -347,6 +347,7 @@ func (c *Cache) writeDump(w io.Writer) (int, error) {
 	gw.Name = dumpHeader
 
 	block := new(CacheDumpBlock)
+	blockBytes := 0 // payload bytes collected in block
 	writeBlock := func() error {
 		b, err := proto.Marshal(block)
 		if err != nil {
@@ -366,6 +367,7 @@ func (c *Cache) writeDump(w io.Writer) (int, error) {
 
 		en += len(block.GetEntries())
 		block.Reset()
+		blockBytes = 0
 		return nil
 	}
 
@@ -386,9 +388,11 @@ func (c *Cache) writeDump(w io.Writer) (int, error) {
 			Msg:                 msg,
 		}
 		block.Entries = append(block.Entries, e)
+		blockBytes += len(e.Key) + len(e.Msg) + 64 // 64: more than the protobuf overhead of an entry
 
-		// Block is big enough for a write operation.
-		if len(block.Entries) >= dumpBlockSize {
+		// Block is big enough for a write operation. Write it before it can
+		// grow over the block length that readDump accepts.
+		if len(block.Entries) >= dumpBlockSize || blockBytes >= dumpMaximumBlockLength/2 {
 			return writeBlock()
 		}
 		return nil
